@@ -20,10 +20,13 @@ Cats == {"sources", "outputs", "attachments", "metadata", "id", "details"}
 \* lists for the metadata keys that differ; the mapping split over two sections and two config directories;
 \* the ignorable booleans in a config file
 \* leafmap: an 'Ignore' mapping that names the scalar leaves themselves (".../execution_count": true, ".../id": true)
-Channels == {"positive", "negative", "ignoremap", "keylist", "splitmap", "configbools", "leafmap"}
+\* mapflags: two installations on one path - an 'Ignore' mapping with a key list for the cell ids in the configuration
+\* file, then negative flags for the other categories (ignoring details installs a second key list on the same path)
+Channels == {"positive", "negative", "ignoremap", "keylist", "splitmap", "configbools", "leafmap", "mapflags"}
 
 \* positive flags name the categories to show: cannot express "ignore everything", and no flag = show all
-Expressible == channel = "positive" => (ignored # Cats /\ ignored # {})
+Expressible == /\ channel = "positive" => (ignored # Cats /\ ignored # {})
+               /\ channel = "mapflags" => {"id", "details"} \subseteq ignored
 
 Init == /\ ignored \in SUBSET Cats
         /\ differing \in SUBSET Cats
